@@ -472,10 +472,29 @@ func GenDocumented() []RawCase {
 	}
 }
 
+// GenSequel re-issues the string/builtin expression programs with a second, later top-level block whose
+// pattern defines its own capture groups (a statement must not change how later patterns are compiled).
+func GenSequel(base []Case) []Case {
+	var out []Case
+	for _, cs := range base {
+		if cs.Family != "expr-string" && cs.Family != "expr-builtin" {
+			continue
+		}
+		q := &Program{Decls: append(append([]Decl{}, cs.P.Decls...), Decl{Kind: "counter", Name: "seq", Keys: []string{"k"}, T: TInt}, Decl{Kind: "gauge", Name: "seqn", T: TInt}), Defs: cs.P.Defs}
+		q.Stmts = append(append([]Stmt{}, cs.P.Stmts...), Cond{C: Pat{`^(?P<z>\d+) (\d+\.\d+) (?P<y>\w+)`}, Then: []Stmt{
+			Assign{Target: Ref{Name: "seq", Idx: []Expr{Cap{"y", TString}}, T: TInt}, Op: "++"},
+			Assign{Target: Ref{Name: "seqn", T: TInt}, Op: "=", RHS: Cap{"z", TInt}},
+		}})
+		out = append(out, Case{Family: "sequel", P: q, Lines: cs.Lines})
+	}
+	return out
+}
+
 // All returns every family.
 func All(thorough bool) []Case {
 	var out []Case
 	out = append(out, GenExpr(thorough)...)
+	out = append(out, GenSequel(out)...)
 	out = append(out, GenPrecedence()...)
 	out = append(out, GenCtl(thorough)...)
 	out = append(out, GenDeco()...)
